@@ -40,6 +40,7 @@ TEXT = {'design_ref': 'DESIGN.md section 4, C20',
          '`wakeup_is_min_first_sweep` for the first sweep after any history without further hypotheses); the parent relation has finite height in every '
          'reachable state (`finite_height_reachable`, the guard `isAnc_sound`); both sweeps terminate with fuel B*(N+2) for height bound B and list bound N '
          '(`pulse_sweep_terminates_quiet`, `gpt_sweep_terminates_quiet`), and the bounds exist in every reachable state (`finite_support_reachable`, '
-         '`sweeps_terminate_reachable`, `sweeps_terminate_first_sweep`).  The model is tied to the C++ code by running both on the same random histories '
-         '(attach/detach/destroy/invalidate, scripts with re-entrant actions, gpt/pulse sweeps): returned minimum and the full callback log must be identical; '
-         'a brute-force oracle on the real class checks min-of-requests, fired = due, once, never early, asked again.'}
+         '`sweeps_terminate_reachable`, `sweeps_terminate_first_sweep`).  For histories whose scripts only change requests nothing about the state is assumed: '
+         '`inv_v_history_quiet`, `wakeup_is_min_quiet_history`, `sweeps_terminate_quiet_history`.  The model is tied to the C++ code by running both on the '
+         'same random histories (attach/detach/destroy/invalidate, scripts with re-entrant actions, gpt/pulse sweeps): returned minimum and the full callback '
+         'log must be identical; a brute-force oracle on the real class checks min-of-requests, fired = due, once, never early, asked again.'}
